@@ -761,4 +761,211 @@ theorem SAInv.toInv {vr : VR} {m m2 : Machine} {rsv : Chip → Nat → Int} {p0 
   · intro v c hv; rw [← I.ok_eq]; exact J.pok v c hv
   · intro v hv; exact I.pvr v ((J.pkeys v).1 hv)
 
+theorem get_of_ok' {m : Machine} {c : Chip} (h : m.ok c = true) : m.get c = some (cap m c) := by
+  simp [Machine.get, h, cap]
+
+theorem set_of_ok' {m : Machine} {c : Chip} (r : Res) (h : m.ok c = true) :
+    m.set c r = some { m with exc := aset m.exc c r } := by
+  simp [Machine.set, h]
+
+/-! ### the kernel raises nothing: every lookup of `_step` / `_swap` succeeds under the invariant -/
+
+theorem candidate_ok (vr : VR) (fixed : List Vtx) (need : Res) :
+    ∀ (vs : List Vtx) (free : Res) (acc : List Vtx), (∀ v ∈ vs, v ∈ keys vr) →
+      ∃ r, candidate vr fixed need vs free acc = .ok r := by
+  intro vs
+  induction vs with
+  | nil =>
+    intro free acc _
+    unfold candidate
+    split
+    · exact ⟨_, rfl⟩
+    · exact ⟨_, rfl⟩
+  | cons v rest ih =>
+    intro free acc hin
+    have hin' : ∀ u ∈ rest, u ∈ keys vr := fun u hu => hin u (by simp [hu])
+    unfold candidate
+    split
+    · exact ⟨_, rfl⟩
+    · simp only
+      split
+      · exact ih _ _ hin'
+      · have hv := (aget_isSome_iff vr v).2 (hin v (by simp))
+        cases hx : aget vr v with
+        | none => simp [hx] at hv
+        | some d => simp only; exact ih _ _ hin'
+
+theorem back_ok (vr : VR) : ∀ (dvs : List Vtx) (r0 : Res), (∀ v ∈ dvs, v ∈ keys vr) →
+    ∃ back, dvs.foldlM (fun (r : Res) v =>
+      match aget vr v with
+      | none => (.error .keyError : M Res)
+      | some d => .ok (sub r d)) r0 = .ok back := by
+  intro dvs
+  induction dvs with
+  | nil => intro r0 _; exact ⟨r0, rfl⟩
+  | cons v t ih =>
+    intro r0 hin
+    have hv := (aget_isSome_iff vr v).2 (hin v (by simp))
+    cases hx : aget vr v with
+    | none => simp [hx] at hv
+    | some d =>
+      simp only [List.foldlM_cons, hx, bind, Except.bind]
+      exact ih _ (fun u hu => hin u (by simp [hu]))
+
+theorem foldB_ok (vr : VR) (a : Chip) : ∀ (vs : List Vtx) (p : Placement) (la lb : List Vtx) (ra rb : Res),
+    vs.Nodup → (∀ v ∈ vs, v ∈ lb) → (∀ v ∈ vs, v ∈ keys vr) →
+    ∃ st', vs.foldlM (mvB vr a) (p, la, lb, ra, rb) = .ok st' := by
+  intro vs
+  induction vs with
+  | nil => intro p la lb ra rb _ _ _; exact ⟨_, rfl⟩
+  | cons v t ih =>
+    intro p la lb ra rb hnd hlb hin
+    simp only [List.nodup_cons] at hnd
+    have hv := (aget_isSome_iff vr v).2 (hin v (by simp))
+    cases hx : aget vr v with
+    | none => simp [hx] at hv
+    | some d =>
+      have hvl : v ∈ lb := hlb v (by simp)
+      have e : mvB vr a (p, la, lb, ra, rb) v = .ok (aset p v a, la ++ [v], lb.erase v, sub ra d, add rb d) := by
+        simp [mvB, hvl, hx]
+      simp only [List.foldlM_cons, e, bind, Except.bind]
+      apply ih _ _ _ _ _ hnd.2
+      · intro u hu
+        exact (List.mem_erase_of_ne (fun (e : u = v) => hnd.1 (e ▸ hu))).2 (hlb u (by simp [hu]))
+      · exact fun u hu => hin u (by simp [hu])
+
+/-- `_swap([x], a, vbs, b)` succeeds when `x` is on `a`, the distinct vertices `vbs` are on `b` -/
+theorem swap_ok {vr : VR} {p0 : Placement} {m0 : Machine} {tot : Chip → Nat → Int} {s : SA}
+    {x : Vtx} {a b : Chip} {vbs : List Vtx} (I : SAInvW vr p0 m0 tot s)
+    (hxa : aget s.p x = some a) (hnd : vbs.Nodup) (hvb : ∀ v ∈ vbs, aget s.p v = some b)
+    (hb : m0.ok b = true) (hx : x ∈ keys vr) (hin : ∀ v ∈ vbs, v ∈ keys vr) :
+    ∃ s', swap vr s [x] a vbs b = .ok s' := by
+  have ha : m0.ok a = true := I.pok x a hxa
+  obtain ⟨la, ela, _, iffA⟩ := I.l2v a ha
+  obtain ⟨lb, elb, _, iffB⟩ := I.l2v b hb
+  have hoka : s.m.ok a = true := by rw [I.ok_eq]; exact ha
+  have hokb : s.m.ok b = true := by rw [I.ok_eq]; exact hb
+  have hxs := (aget_isSome_iff vr x).2 hx
+  cases hdx : aget vr x with
+  | none => simp [hdx] at hxs
+  | some dx =>
+    have hxla : x ∈ la := (iffA x).2 hxa
+    obtain ⟨st2, h2⟩ := foldB_ok vr a vbs (aset s.p x b) (la.erase x) (lb ++ [x]) (add (cap s.m a) dx)
+      (sub (cap s.m b) dx) hnd (fun v hv => List.mem_append_left _ ((iffB v).2 (hvb v hv))) hin
+    have e1 : [x].foldlM (mvA vr b) (s.p, la, lb, cap s.m a, cap s.m b) =
+        .ok (aset s.p x b, la.erase x, lb ++ [x], add (cap s.m a) dx, sub (cap s.m b) dx) := by
+      simp [List.foldlM, mvA, hxla, hdx, bind, Except.bind, pure, Except.pure]
+    rw [swap_eq]
+    simp only [ela, elb, get_of_ok' hoka, get_of_ok' hokb, Option.elim, bind, Except.bind, pure, Except.pure, e1, h2,
+      set_of_ok' _ hoka]
+    have hokb' : ({ s.m with exc := aset s.m.exc a st2.2.2.2.1 } : Machine).ok b = true := hokb
+    simp only [set_of_ok' _ hokb']
+    exact ⟨_, rfl⟩
+
+/-- **one step raises nothing** (the only failure of the model is an impossible draw) -/
+theorem SAInv.step_doc {vr : VR} {fixed : List Vtx} {p0 : Placement} {m0 : Machine} {tot : Chip → Nat → Int}
+    {s : SA} {src : Vtx} {dst : Chip} {accept : Bool} {e : Err}
+    (hn : (keys vr).Nodup) (I : SAInv vr fixed p0 m0 tot s) (hpvr : ∀ v ∈ keys p0, v ∈ keys vr)
+    (hsrc : src ∈ keys p0)
+    (h : saStep vr fixed s src dst accept = .error e) : e = .badOracle := by
+  have hkvr : ∀ v c, aget s.p v = some c → v ∈ keys vr := fun v c hv =>
+    hpvr v ((I.pkeys v).1 ((aget_isSome_iff s.p v).1 (by simp [hv])))
+  unfold saStep at h
+  split at h
+  · injection h with h; exact h.symm
+  have hps := (aget_isSome_iff s.p src).2 ((I.pkeys src).2 hsrc)
+  cases hsl : aget s.p src with
+  | none => simp [hsl] at hps
+  | some srcLoc =>
+    simp only [hsl] at h
+    split at h
+    · injection h with h; exact h.symm
+    rename_i hds
+    split at h
+    · simp at h
+    rename_i hokd
+    have hokd' : s.m.ok dst = true := by simpa using hokd
+    have hokd0 : m0.ok dst = true := by rw [← I.ok_eq]; exact hokd'
+    have hoks0 : m0.ok srcLoc = true := I.pok src srcLoc hsl
+    have hoks : s.m.ok srcLoc = true := by rw [I.ok_eq]; exact hoks0
+    have hxs := (aget_isSome_iff vr src).2 (hpvr src hsrc)
+    obtain ⟨vs, evs, ndvs, iffvs⟩ := I.l2v dst hokd0
+    cases hneed : aget vr src with
+    | none => simp [hneed] at hxs
+    | some need =>
+      simp only [hneed, get_of_ok' hokd', evs, get_of_ok' hoks] at h
+      have hvsin : ∀ v ∈ vs, v ∈ keys vr := fun v hv => hkvr v dst ((iffvs v).1 hv)
+      obtain ⟨cand, hcand⟩ := candidate_ok vr fixed need vs (cap s.m dst) [] hvsin
+      simp only [hcand, bind, Except.bind] at h
+      cases cand with
+      | none => simp [pure, Except.pure] at h
+      | some dvs =>
+        simp only at h
+        obtain ⟨moved, em, hsub, hmf, _⟩ := candidate_spec vr fixed need vs _ [] dvs hcand
+        simp only [List.nil_append] at em; subst em
+        have hdin : ∀ v ∈ dvs, v ∈ keys vr := fun v hv => hvsin v (hsub.subset hv)
+        obtain ⟨back, hback⟩ := back_ok vr dvs (add (cap s.m srcLoc) need) hdin
+        split at h
+        · rename_i err herr
+          have : (Except.error err : M Res) = .ok back := herr.symm.trans hback
+          cases this
+        split at h
+        · simp [pure, Except.pure] at h
+        have hab : srcLoc ≠ dst := fun e => hds e.symm
+        have hdv : ∀ v ∈ dvs, aget s.p v = some dst := fun v hv => (iffvs v).1 (hsub.subset hv)
+        have hdnd : dvs.Nodup := List.Nodup.sublist hsub ndvs
+        obtain ⟨s1, hs1⟩ := swap_ok I.toSAInvW hsl hdnd hdv hokd0 (hpvr src hsrc) hdin
+        simp only [hs1] at h
+        split at h
+        · simp [pure, Except.pure] at h
+        obtain ⟨_, _, _, _, _, _, _, W1, hp1, _, _, _⟩ := swap_spec hn hab I.toSAInvW hs1
+        have hsrcnd : src ∉ dvs := by
+          intro hm; have := hdv src hm; rw [hsl] at this; exact hab (Option.some.inj this)
+        obtain ⟨s2, hs2⟩ := swap_ok (x := src) (a := dst) (b := srcLoc) (vbs := dvs) W1
+          (by rw [hp1 src, if_neg hsrcnd, if_pos rfl]) hdnd
+          (fun v hv => by rw [hp1 v, if_pos hv]) hoks0 (hpvr src hsrc) hdin
+        simp [hs2, pure, Except.pure] at h
+
+/-- ... hence a whole run raises nothing -/
+theorem SAInv.run_doc {vr : VR} {fixed : List Vtx} {p0 : Placement} {m0 : Machine} {tot : Chip → Nat → Int}
+    (hn : (keys vr).Nodup) (hpvr : ∀ v ∈ keys p0, v ∈ keys vr) :
+    ∀ (steps : List Step) (s : SA) (fl : List Bool) (e : Err),
+      SAInv vr fixed p0 m0 tot s → (∀ st ∈ steps, st.src ∈ keys p0) →
+      saRun vr fixed steps s fl = .error e → e = .badOracle := by
+  intro steps
+  induction steps with
+  | nil => intro s fl e _ _ h; simp [saRun] at h
+  | cons st rest ih =>
+    intro s fl e I hsrc h
+    simp only [saRun, bind, Except.bind] at h
+    split at h
+    · rename_i e' he'
+      injection h with h; subst h
+      exact SAInv.step_doc hn I hpvr (hsrc st (by simp)) he'
+    · rename_i r hr
+      obtain ⟨s1, f⟩ := r
+      exact ih _ _ _ (SAInv.step hn I hr) (fun st' h' => hsrc st' (by simp [h'])) h
+
+theorem mkL2v_ok (m : Machine) : ∀ (p : Placement) (l : List (Chip × List Vtx)),
+    (∀ vc ∈ p, vc.2 ∈ keys l) →
+    ∃ l', p.foldlM (fun l (vc : Vtx × Chip) =>
+      match aget l vc.2 with
+      | none => (.error .keyError : M _)
+      | some vs => .ok (aset l vc.2 (vs ++ [vc.1]))) l = .ok l' := by
+  intro p
+  induction p with
+  | nil => intro l _; exact ⟨l, rfl⟩
+  | cons hd t ih =>
+    obtain ⟨v, c⟩ := hd
+    intro l hin
+    have hc := (aget_isSome_iff l c).2 (hin (v, c) (by simp))
+    cases hx : aget l c with
+    | none => simp [hx] at hc
+    | some vs =>
+      simp only [List.foldlM_cons, hx, bind, Except.bind]
+      apply ih
+      intro vc hvc
+      rw [mem_keys_aset]
+      exact Or.inr (hin vc (by simp [hvc]))
+
 end Rig.C02
